@@ -20,6 +20,9 @@ type PathQuery struct {
 	From   ssa.Instruction // nil = function entry; search starts AFTER this instruction
 	Target InstrPred       // reaching such an instruction succeeds
 	Avoid  InstrPred       // paths may not pass such an instruction (nil = none)
+	// StartEdge, if set, starts the search with the traversal of the CFG edge [0] -> [1] (From is ignored):
+	// the branch that edge forces at [1] (jump threading) is respected.
+	StartEdge *[2]*ssa.BasicBlock
 	Edge   EdgeFilter      // nil = all edges
 }
 
@@ -81,6 +84,10 @@ func (q PathQuery) Find() []ssa.Instruction {
 	}
 	queue := []st{{startB, startI, -1}}
 	first := true
+	if q.StartEdge != nil {
+		startB = q.StartEdge[1]
+		queue = []st{{startB, 0, forcedSucc(q.StartEdge[0], q.StartEdge[1])}}
+	}
 	for len(queue) > 0 {
 		cur := queue[0]
 		queue = queue[1:]
@@ -211,9 +218,56 @@ func knownNilness(v ssa.Value) int {
 		case pk == "github.com/pkg/errors" && (name == "New" || name == "Errorf"),
 			pk == "errors" && name == "New", pk == "fmt" && name == "Errorf":
 			return 1
+		case pk == "github.com/pkg/errors" && (name == "Wrap" || name == "Wrapf" || name == "WithMessage" || name == "WithMessagef" || name == "WithStack"):
+			// nil in, nil out; non-nil in, non-nil out
+			if len(x.Call.Args) > 0 {
+				a := x.Call.Args[0]
+				if n := knownNilness(a); n != 0 {
+					return n
+				}
+				if testedNonNilAt(a, x.Block()) {
+					return 1
+				}
+			}
 		}
 	}
 	return 0
+}
+
+// testedNonNilAt: block b is dominated by the non-nil edge of a test `v != nil` / `v == nil`.
+func testedNonNilAt(v ssa.Value, b *ssa.BasicBlock) bool {
+	refs := v.Referrers()
+	if refs == nil {
+		return false
+	}
+	for _, ref := range *refs {
+		cmp, ok := ref.(*ssa.BinOp)
+		if !ok || (cmp.Op != token.NEQ && cmp.Op != token.EQL) {
+			continue
+		}
+		isNil := func(x ssa.Value) bool { c, ok := x.(*ssa.Const); return ok && c.Value == nil }
+		if !(cmp.X == v && isNil(cmp.Y)) && !(cmp.Y == v && isNil(cmp.X)) {
+			continue
+		}
+		if cmp.Referrers() == nil {
+			continue
+		}
+		for _, r2 := range *cmp.Referrers() {
+			ifi, ok := r2.(*ssa.If)
+			if !ok {
+				continue
+			}
+			succ := 0
+			if cmp.Op == token.EQL {
+				succ = 1
+			}
+			nb := ifi.Block().Succs[succ]
+			if len(nb.Preds) == 1 && nb.Dominates(b) {
+				return true
+			}
+		}
+	}
+	return false
 }
 
 func firstPositioned(b *ssa.BasicBlock) ssa.Instruction {
